@@ -299,7 +299,7 @@ func genExpr(r *lib.RNG, cls string, depth int) *Expr {
 		case 4:
 			return &Expr{Op: "if", C: g("bool"), A: g("str"), B: g("str")}
 		case 5:
-			return &Expr{Op: "cast", Sub: "CChar", A: g(lib.Pick(r, []string{"int", "dec"}))}
+			return &Expr{Op: "cast", Sub: "CChar", A: g("int")}
 		case 6:
 			return &Expr{Op: "ifnull", A: g("str"), B: g(lib.Pick(r, []string{"str", "int"}))}
 		default:
@@ -310,15 +310,18 @@ func genExpr(r *lib.RNG, cls string, depth int) *Expr {
 		case 0:
 			return &Expr{Op: "arith", Sub: lib.Pick(r, []string{"Add", "Sub", "Mul"}), A: g("dec"), B: g("num")}
 		case 1:
-			return &Expr{Op: "mod", A: g("int"), B: g("int")}
+			return &Expr{Op: "mod", A: genModOperand(r), B: genModOperand(r)}
 		case 2:
 			return &Expr{Op: "cast", Sub: "CDecimal", P: r.Range(12, 20), S: r.Range(1, 3), A: g("num")}
 		case 3:
 			return &Expr{Op: "neg", A: &Expr{Op: "field", I: 5}}
 		case 4:
+			if r.Bool() {
+				return genCase(r, "dec", depth)
+			}
 			return &Expr{Op: "nullif", A: g("dec"), B: g("num")}
 		default:
-			return &Expr{Op: "arith", Sub: "Mul", A: g("int"), B: &Expr{Op: "mod", A: g("int"), B: g("int")}}
+			return &Expr{Op: "arith", Sub: "Mul", A: g("int"), B: &Expr{Op: "mod", A: genModOperand(r), B: genModOperand(r)}}
 		}
 	case "bool":
 		switch r.Intn(8) {
@@ -370,7 +373,10 @@ func genExpr(r *lib.RNG, cls string, depth int) *Expr {
 	case 9:
 		return &Expr{Op: lib.Pick(r, []string{"greatest", "least"}), A: g("int"), B: g("int")}
 	case 10:
-		return &Expr{Op: "cast", Sub: lib.Pick(r, []string{"CSigned", "CUnsigned"}), A: g("num")}
+		if r.Bool() {
+			return &Expr{Op: "cast", Sub: "CSigned", A: g("num")}
+		}
+		return &Expr{Op: "cast", Sub: "CUnsigned", A: g("int")}
 	case 11:
 		return &Expr{Op: "length", A: g("str")}
 	case 12:
@@ -380,19 +386,33 @@ func genExpr(r *lib.RNG, cls string, depth int) *Expr {
 	}
 }
 
+// genModOperand: operands of % stay shallow (columns, literals, one arithmetic step): Mod.Type inspects the whole operand tree
+func genModOperand(r *lib.RNG) *Expr {
+	leaf := func() *Expr {
+		if r.Chance(3, 5) {
+			return &Expr{Op: "field", I: r.Intn(5)}
+		}
+		return litInt(int64(lib.Pick(r, []int{1, 2, 3, 4, 7, -3, 100, 128, 300, 40000})))
+	}
+	if r.Chance(1, 3) {
+		return &Expr{Op: "arith", Sub: lib.Pick(r, []string{"Add", "Sub", "Mul"}), A: leaf(), B: leaf()}
+	}
+	return leaf()
+}
+
 func genCase(r *lib.RNG, cls string, depth int) *Expr {
 	n := r.Range(1, 2)
 	e := &Expr{Op: "case"}
 	for i := 0; i < n; i++ {
 		vc := cls
-		if cls == "int" && r.Chance(1, 5) {
-			vc = "dec"
+		if cls == "dec" && r.Chance(1, 3) {
+			vc = "int"
 		}
 		e.L = append(e.L, genExpr(r, "bool", depth-1), genExpr(r, vc, depth-1))
 	}
 	if r.Chance(2, 3) {
 		vc := cls
-		if r.Chance(1, 6) {
+		if cls != "dec" && r.Chance(1, 6) {
 			vc = lib.Pick(r, []string{"int", "str"})
 		}
 		e.Else = genExpr(r, vc, depth-1)
@@ -631,6 +651,10 @@ func typeRootCause(col *sql.Column, v interface{}) string {
 		return "unsigned-type-holds-negative/intdiv-with-one-unsigned-operand"
 	case strings.HasSuffix(tn, "unsigned") && isNegative(v) && negNameRe.MatchString(name):
 		return "unsigned-type-holds-negative/unary-minus-keeps-small-unsigned-type"
+	case decRe.MatchString(tn) && tn != "decimal(65,30)" && strings.ContainsAny(name, "%*+-"):
+		if _, ok := v.(*apd.Decimal); ok { // whatever function passes the operand type through (NULLIF, IFNULL, ...)
+			return "convert-error/expr/*apd.Decimal-in-decimal"
+		}
 	case tn == "decimal(65,30)":
 		if d, ok := v.(*apd.Decimal); ok && d.NumDigits()+int64(d.Exponent) > 35 {
 			return "decimal-out-of-range/generalised-decimal-65-30-holds-wider-operand"
